@@ -343,6 +343,290 @@ func runWhen(ci interface{}, s *vkit.Stats) error {
 	return nil
 }
 
+// ---- condition histories: When / In over every corpus signature, repeated over the same function ----
+
+type condStep struct {
+	Form  string   `json:"form"`  // when | in | when-in
+	NVar  int      `json:"nvar"`  // number of variadic elements supplied (variadic functions)
+	Kinds []string `json:"kinds"` // per flat parameter: ordinary | nil | standin | standin-ptr
+	Codes []uint64 `json:"codes"`
+}
+
+type condCase struct {
+	Fn    int        `json:"fn"`
+	Name  string     `json:"fn_name"`
+	Steps []condStep `json:"steps"`
+}
+
+// flatTypes lists the parameter types with the variadic parameter expanded to nvar elements
+func flatTypes(fn *corpus.Fn, nvar int) []reflect.Type {
+	var ts []reflect.Type
+	for i := 0; i < fn.NFixed; i++ {
+		ts = append(ts, fn.Type.In(i))
+	}
+	if fn.Variadic {
+		for i := 0; i < nvar; i++ {
+			ts = append(ts, fn.Type.In(fn.NFixed).Elem())
+		}
+	}
+	return ts
+}
+
+func condKinds(t reflect.Type) []string {
+	ks := []string{"ordinary", "ordinary", "ordinary"}
+	if nilable(t.Kind()) {
+		ks = append(ks, "nil")
+	}
+	if _, ok := standIn[t]; ok {
+		ks = append(ks, "standin", "standin")
+	}
+	if t.Kind() == reflect.Ptr {
+		if _, ok := standIn[t.Elem()]; ok {
+			ks = append(ks, "standin-ptr", "standin-ptr")
+		}
+	}
+	return ks
+}
+
+// deref mirrors the one level of indirection the matcher removes before comparing
+func deref(v reflect.Value) reflect.Value {
+	if (v.Kind() == reflect.Interface || v.Kind() == reflect.Ptr) && !v.IsNil() {
+		return v.Elem()
+	}
+	return v
+}
+
+// surelyEqual: content-equal in a way every reading of "compared as values of the declared type" accepts
+func surelyEqual(a, b reflect.Value) bool {
+	if !a.IsValid() || !b.IsValid() {
+		return false
+	}
+	a, b = deref(a), deref(b)
+	if !a.IsValid() || !b.IsValid() || !a.CanInterface() || !b.CanInterface() {
+		return false
+	}
+	return reflect.DeepEqual(a.Interface(), b.Interface())
+}
+
+// build makes, for one flat parameter, the condition value handed to goom and an independently built argument equal to it
+func buildCond(t reflect.Type, kind string, code uint64) (pat interface{}, arg reflect.Value) {
+	fresh := func() reflect.Value {
+		rv := reflect.New(t).Elem()
+		rv.Set(vkit.Value(t, code))
+		return rv
+	}
+	switch kind {
+	case "nil":
+		return nil, reflect.New(t).Elem()
+	case "standin":
+		real := fresh()
+		return reflect.NewAt(standIn[t], unsafe.Pointer(real.Addr().Pointer())).Elem().Interface(), fresh()
+	case "standin-ptr":
+		real := fresh()
+		if real.IsNil() {
+			real.Set(reflect.New(t.Elem()))
+		}
+		a := fresh()
+		if a.IsNil() {
+			a.Set(reflect.New(t.Elem()))
+		}
+		return reflect.NewAt(standIn[t.Elem()], unsafe.Pointer(real.Pointer())).Interface(), a
+	}
+	v := fresh()
+	if v.Kind() == reflect.Interface && v.IsNil() {
+		return nil, fresh()
+	}
+	return v.Interface(), fresh()
+}
+
+// callArgs packs flat argument values into the argument list of the function (variadic elements into the slice)
+func callArgs(fn *corpus.Fn, flat []reflect.Value) []reflect.Value {
+	args := append([]reflect.Value(nil), flat[:fn.NFixed]...)
+	if fn.Variadic {
+		sl := reflect.MakeSlice(fn.Type.In(fn.NFixed), 0, len(flat)-fn.NFixed)
+		sl = reflect.Append(sl, flat[fn.NFixed:]...)
+		args = append(args, sl)
+	}
+	return args
+}
+
+func distinctScalar(t reflect.Type) bool {
+	switch t.Kind() {
+	case reflect.Int, reflect.Int8, reflect.Int16, reflect.Int32, reflect.Int64, reflect.Uint, reflect.Uint8, reflect.Uint16, reflect.Uint32, reflect.Uint64,
+		reflect.Uintptr, reflect.String:
+		return true
+	}
+	return false
+}
+
+func runCondHist(ci interface{}, s *vkit.Stats) error {
+	c := ci.(*condCase)
+	fn := corpus.Fns[c.Fn%len(corpus.Fns)]
+	nout := fn.Type.NumOut()
+	if nout == 0 {
+		return nil
+	}
+	res := func(code uint64) []reflect.Value {
+		r := make([]reflect.Value, nout)
+		for i := range r {
+			r[i] = vkit.Value(fn.Type.Out(i), code+uint64(i))
+		}
+		return r
+	}
+	ifs := func(vs []reflect.Value) []interface{} {
+		o := make([]interface{}, len(vs))
+		for i, v := range vs {
+			if v.Kind() == reflect.Interface && v.IsNil() {
+				continue
+			}
+			o[i] = v.Interface()
+		}
+		return o
+	}
+	same := func(a, b []reflect.Value) bool {
+		for i := range a {
+			if !vkit.ContentEqual(a[i], b[i]) {
+				return false
+			}
+		}
+		return true
+	}
+	D, R, R2 := res(1100), res(2200), res(3300)
+	if same(D, R) || same(D, R2) || same(R, R2) {
+		s.Exclude("result-values-indistinguishable")
+		return nil
+	}
+	which := func(got []reflect.Value) string {
+		switch {
+		case same(got, R):
+			return "the condition's result"
+		case same(got, R2):
+			return "the second condition's result"
+		case same(got, D):
+			return "the default result"
+		}
+		return "an unexpected result " + vkit.Describe(got[0])
+	}
+	judged := 0
+	for si, st := range c.Steps {
+		ts := flatTypes(fn, st.NVar)
+		if len(st.Kinds) != len(ts) || len(st.Codes) != len(ts) || len(ts) == 0 {
+			return nil
+		}
+		mk := func(shift uint64) (pats []interface{}, args []reflect.Value, sure bool) {
+			sure = true
+			for i, t := range ts {
+				p, a := buildCond(t, st.Kinds[i], st.Codes[i]+shift)
+				pats, args = append(pats, p), append(args, a)
+				if p == nil {
+					if !(nilable(t.Kind()) && a.IsNil()) {
+						sure = false
+					}
+					continue
+				}
+				pv := reflect.ValueOf(p)
+				if st.Kinds[i] == "standin" {
+					pv = reflect.NewAt(t, unsafe.Pointer(func() uintptr { x := reflect.New(pv.Type()); x.Elem().Set(pv); return x.Pointer() }())).Elem()
+				} else if st.Kinds[i] == "standin-ptr" {
+					pv = reflect.NewAt(t.Elem(), unsafe.Pointer(pv.Pointer()))
+				}
+				if !surelyEqual(pv, a) || vkit.HasNaN(a) {
+					sure = false
+				}
+			}
+			return
+		}
+		pats, args, sure := mk(0)
+		pats2, args2, sure2 := mk(7777)
+		desc := fmt.Sprintf("step %d (%s on %s %v, condition values supplied as %v)", si, st.Form, fn.Name, fn.Type, st.Kinds)
+		b := mocker.Create()
+		var w *mocker.When
+		pv := guard(func() {
+			w = b.Func(fn.Fn).Return(ifs(D)...)
+			switch st.Form {
+			case "when":
+				w.When(pats...).Return(ifs(R)...)
+			case "in":
+				w.In(pats, pats2).Return(ifs(R)...)
+			default:
+				w.When(pats...).Return(ifs(R)...)
+				w.In(pats2).Return(ifs(R2)...)
+			}
+		})
+		if pv != nil {
+			b.Reset()
+			return fmt.Errorf("%s: configuring the conditions panicked: %v", desc, pv)
+		}
+		probe := func(label string, flat []reflect.Value, want []reflect.Value, wantName string) error {
+			var got []reflect.Value
+			if pv := guard(func() { got = fn.Call(corpus.FormDirect, callArgs(fn, flat)) }); pv != nil {
+				return fmt.Errorf("%s: calling with %s panicked: %v", desc, label, pv)
+			}
+			if !same(got, want) {
+				return fmt.Errorf("%s: a call with %s yielded %s, want %s", desc, label, which(got), wantName)
+			}
+			judged++
+			return nil
+		}
+		// the two tuples are told apart by a scalar argument (otherwise a call may legitimately satisfy both conditions)
+		apart := false
+		for i, t := range ts {
+			if distinctScalar(t) && st.Kinds[i] == "ordinary" && fmt.Sprint(args[i].Interface()) != fmt.Sprint(args2[i].Interface()) {
+				apart = true
+			}
+		}
+		var err error
+		if sure && (apart || st.Form != "when-in") {
+			err = probe("arguments equal to the condition values", args, R, "the condition's result")
+		}
+		if err == nil && sure2 && (st.Form == "in" || (st.Form == "when-in" && apart)) {
+			wantR, wn := R, "the condition's result"
+			if st.Form == "when-in" {
+				wantR, wn = R2, "the second condition's result"
+			}
+			err = probe("arguments equal to the second tuple of In", args2, wantR, wn)
+		}
+		if err == nil {
+			// one distinguishable scalar argument differs from both tuples
+			for i, t := range ts {
+				if !distinctScalar(t) || st.Kinds[i] != "ordinary" {
+					continue
+				}
+				alt := vkit.Value(t, st.Codes[i]+424242)
+				if fmt.Sprint(alt.Interface()) == fmt.Sprint(args[i].Interface()) || fmt.Sprint(alt.Interface()) == fmt.Sprint(args2[i].Interface()) {
+					continue
+				}
+				other := append([]reflect.Value(nil), args...)
+				other[i] = alt
+				err = probe(fmt.Sprintf("argument %d different from every condition", i), other, D, "the default result")
+				break
+			}
+		}
+		b.Reset()
+		if err != nil {
+			return err
+		}
+		s.Class("condhist/" + st.Form)
+		for i := range ts {
+			s.Class("condhist/param/" + st.Kinds[i] + "/" + ts[i].Kind().String())
+		}
+		if fn.Variadic {
+			s.Class("condhist/variadic/" + st.Form)
+		}
+	}
+	if judged > 0 {
+		if len(c.Steps) > 1 {
+			s.Class("condhist/multi-step")
+			if fn.Variadic {
+				s.Class("condhist/multi-step-variadic")
+			}
+		}
+		s.NonTrivial(fmt.Sprint(*c))
+		s.Sample(c)
+	}
+	return nil
+}
+
 func quiet() {
 	if f, err := os.OpenFile(os.DevNull, os.O_WRONLY, 0); err == nil && os.Getenv("VERIF_VERBOSE") == "" {
 		os.Stdout = f
@@ -383,5 +667,39 @@ func TestVerifC09(t *testing.T) {
 	ws := w.Main(t, vkit.Scale(300, 3000))
 	if !vkit.Replaying() {
 		ws.Done()
+	}
+	var variadicWithResults []int
+	for _, i := range withResults {
+		if corpus.Fns[i].Variadic {
+			variadicWithResults = append(variadicWithResults, i)
+		}
+	}
+	h := &vkit.Prop{ID: "C09", Unit: "condition-histories", New: func() interface{} { return &condCase{} },
+		Gen: func(rt *rapid.T) interface{} {
+			pool := withResults
+			if len(variadicWithResults) > 0 && rapid.Bool().Draw(rt, "variadic") {
+				pool = variadicWithResults
+			}
+			c := &condCase{Fn: rapid.SampledFrom(pool).Draw(rt, "fn")}
+			fn := corpus.Fns[c.Fn]
+			c.Name = fn.Name
+			n := rapid.IntRange(1, 3).Draw(rt, "steps")
+			for k := 0; k < n; k++ {
+				st := condStep{Form: rapid.SampledFrom([]string{"when", "in", "when-in"}).Draw(rt, "form")}
+				if fn.Variadic {
+					st.NVar = rapid.IntRange(1, 3).Draw(rt, "nvar")
+				}
+				for _, t := range flatTypes(fn, st.NVar) {
+					st.Kinds = append(st.Kinds, rapid.SampledFrom(condKinds(t)).Draw(rt, "kind"))
+					st.Codes = append(st.Codes, uint64(vkit.ValueCode().Draw(rt, "code")))
+				}
+				c.Steps = append(c.Steps, st)
+			}
+			return c
+		},
+		Run: runCondHist}
+	hs := h.Main(t, vkit.Scale(1500, 20000))
+	if !vkit.Replaying() {
+		hs.Done()
 	}
 }
